@@ -161,6 +161,13 @@ MUTATIONS += [
     dict(id="C11-pred-ignore-ctime-inverted", prop="C11", file=PA, old="                    ignore_ctime || p_meta.ctime.zip(meta.ctime).is_none_or(|(x, y)| x == y);", new="                    !ignore_ctime || p_meta.ctime.zip(meta.ctime).is_none_or(|(x, y)| x == y);"),
 ]
 
+# ---- C08 header size folds (Verus, unbounded)
+PFILE = "crates/core/src/repofile/packfile.rs"
+MUTATIONS += [
+    dict(id="C08-fold-size-flat-entry", prop="C08", file=PFILE, old="            acc + HeaderEntry::from_blob(blob).length()\n        })", new="            acc + HeaderEntry::ENTRY_LEN\n        })"),
+    dict(id="C08-fold-packsize-no-length-field", prop="C08", file=PFILE, old="            constants::COMP_OVERHEAD + constants::LENGTH_LEN,\n            |acc, blob|", new="            constants::COMP_OVERHEAD,\n            |acc, blob|"),
+]
+
 HARMLESS = [
     dict(id="H-C05-trees-symlink-continue", prop="C05", file=CK, old="        for node in tree.nodes {\n            match node.node_type {", new="        for node in tree.nodes {\n            if node.node_type == NodeType::Symlink {\n                continue;\n            }\n            match node.node_type {"),
 ]
